@@ -85,7 +85,9 @@ FILTER_ARGS = {
 }
 ARG_VALUES = {
     'DeepInheritance': [True, False],
-    'PropertyList': [['name'], ['v'], ['NAME', 'extra'], [], ['parent'], ['child', 'w']],
+    # documented argument forms: list, tuple, or a single property name as a string
+    'PropertyList': [['name'], ['v'], ['NAME', 'extra'], [], ['parent'], ['child', 'w'], 'name', 'extra', 'child',
+                     ('v',), ('parent', 'w')],
     'Role': ['parent', 'child', 'PARENT', 'nosuchrole'],
     'ResultRole': ['parent', 'child', 'Child', 'nosuchrole'],
     'AssocClass': ['TST_L', 'TST_M', 'tst_l'],
@@ -197,7 +199,10 @@ class Real:
                     kw['MaxObjectCount'] = op['max']
                 kw.update(op.get('args') or {})
                 kw.update(op.get('params') or {})
-                if op['src'] is None:
+                if op['src'] is None and op.get('clsform') == 'cimclassname':
+                    # the class given as a CIMClassName that carries the namespace, no namespace argument
+                    r = getattr(c, op['method'])(pywbem.CIMClassName('TST_P', namespace=ns), **kw)
+                elif op['src'] is None:
                     r = getattr(c, op['method'])('TST_P', namespace=ns, **kw)
                 else:
                     p = pywbem.CIMInstanceName('TST_P', keybindings={'name': op['src']}, namespace=ns)
@@ -260,7 +265,8 @@ def gen_history(rng, thorough):
                 mx = None
             ops.append({'op': 'open', 'method': method, 'kind': kind, 'trad': trad, 'ns': nsi,
                         'src': 'p0' if needs_src else None, 'max': mx, 'passnone': rng.random() < 0.5,
-                        'args': gen_args(rng, method), 'params': gen_params(rng)})
+                        'args': gen_args(rng, method), 'params': gen_params(rng),
+                        'clsform': 'cimclassname' if (not needs_src and rng.random() < 0.3) else 'str'})
             opened += 1
         elif r < 0.80:
             kind = rng.choice(['withPath', 'paths', 'insts'])
@@ -324,7 +330,10 @@ def _exec_one(g):
 def oracle(run, model_ops, outs, n_open, case):
     """the property itself, evaluated on the REAL outputs only"""
     sess = {}   # ctx -> dict(orig, delivered, status)
+    gone = set()    # namespaces removed so far
     for op, out in zip(model_ops, outs):
+        if op['op'] == 'rmns' and 'ok' in out:
+            gone.add(op['ns'])
         if op['op'] == 'open' and 'ok' in out:
             r = out['ok']
             mx = op['max']
@@ -344,7 +353,8 @@ def oracle(run, model_ops, outs, n_open, case):
             else:
                 if r['ctx'] is None:
                     run.violate({'kind': 'no_context_without_eos'}, case, out)
-                sess[r['ctx']] = {'orig': op['objs'], 'del': list(r['objs']), 'st': 'open', 'kind': op['kind']}
+                sess[r['ctx']] = {'orig': op['objs'], 'del': list(r['objs']), 'st': 'open', 'kind': op['kind'],
+                                  'ns': op['ns']}
         elif op['op'] == 'pull':
             s = sess.get(op['ctx'])
             if 'ok' in out:
@@ -354,6 +364,11 @@ def oracle(run, model_ops, outs, n_open, case):
                     continue
                 if s['kind'] != op['kind']:
                     run.violate({'kind': 'wrong_kind_pull_accepted'}, case, out)
+                if s['ns'] in gone:
+                    # the namespace of the session does not exist any more: the traditional operation has no result
+                    # there, so nothing can be "exactly the result of the traditional operation" - the pull must be
+                    # refused (the code answers CIM_ERR_INVALID_NAMESPACE and keeps the context for CloseEnumeration)
+                    run.violate({'kind': 'pull_served_from_removed_namespace'}, case, out)
                 mx = op['max']
                 if mx is not None and len(r['objs']) > mx:
                     run.violate({'kind': 'batch_exceeds_max', 'op': 'pull', 'max': mx}, case, out)
@@ -399,7 +414,8 @@ def run(run):
                 'disable toggles, namespace removal; MaxObjectCount from {None,0,1,2,3,5,100,1000,negative}; result sets '
                 '0..21 objects and, in ~4 % of the histories, 99..230 (around the server default batch of 100 used when '
                 'the Open passes no MaxObjectCount); filter arguments Role/ResultRole/AssocClass/ResultClass/'
-                'DeepInheritance/PropertyList passed alike to the Open and the traditional operation; delivered objects '
+                'DeepInheritance/PropertyList (list, tuple and single-string forms) passed alike to the Open and the traditional '
+                'operation; class name as string + namespace argument or as CIMClassName carrying the namespace; delivered objects '
                 'compared by path AND content; stale/foreign/None contexts); a case is non-trivial when at least one '
                 'pull delivered objects; distinct = distinct (sizes, op list) JSON')
     run.assumptions += ['uuid4 context ids never repeat (model: counter)',
